@@ -29,6 +29,7 @@ class TapeRandom:
     def __init__(self, rng=None, tape=None, idx=None, unif_bits=12, delay_den=16, delay_max=48, max_calls=200000, free_choice=False):
         self.rng, self.tape, self.idx = rng, (list(tape) if tape is not None else None), idx
         self.pos = 0
+        self.exp_log = []      # scalar np.exp calls (argument, value) as exact rationals
         self.log = []          # wire-format tape  [["u","3/8"],["e","1/2"],["c",2],["s",[..]],["b",k]]
         self.trace = []        # calls with arguments [["u"],["e",rate],["c",seq],["s",n,k],["b",n,p]]
         self.unif_bits, self.delay_den, self.delay_max = unif_bits, delay_den, delay_max
@@ -129,6 +130,17 @@ class _NpRandom:
 class NumpyProxy:
     def __init__(self, tr):
         self.random = _NpRandom(tr)
+        self._tr = tr
+
+    def exp(self, x):
+        """np.exp, with scalar calls logged (argument and value as exact rationals) for the generated-code drivers"""
+        v = _np.exp(x)
+        try:
+            if _np.ndim(x) == 0:
+                self._tr.exp_log.append((Fraction(float(x)), Fraction(float(v))))
+        except Exception:
+            pass
+        return v
 
     def __getattr__(self, name):
         return getattr(_np, name)
